@@ -5,8 +5,8 @@ V = os.path.dirname(os.path.dirname(os.path.abspath(__file__)))
 props = [json.loads(l) for l in open(os.path.join(V, "properties.jsonl"))]
 TB = "trusted: TLC, the L1 transcription (Script.tla/MsSpec.tla/Verify.tla/Policy.tla...), alpha and rust-bitcoin/secp256k1/bitcoin_hashes; bounds in evidence"
 C = {
- "C20": ("translate-pipeline", "model_checking", "Subst(ast, f) and KeysPre(ast) of the TLA+ AST model vs. real translate_pk / iter_pk / for_each_key / for_any_key on every enumerated miniscript and its descriptor wrapper, 6 mappings + composition + String->concrete", "5/C20",
-         "TLA+ structural substitution / pre-order key sequence vs. library translation and iteration (Trace_Translate)"),
+ "C20": ('translate-pipeline', 'model_checking', 'Subst(ast, f) and KeysPre(ast) of the TLA+ AST model vs. real translate_pk / iter_pk / for_each_key / for_any_key on every enumerated miniscript and its descriptor wrapper, 6 mappings + composition + String->concrete; concrete policies (incl. weighted or, positional thresholds) under 4 mappings vs Subst(P, f) with odds and child order, failure iff the mapping fails on an occurring key, keys()/for_each_key bags, semantic identity translation', '5/C20',
+         'TLA+ structural substitution / pre-order key sequence vs. library translation and iteration (Trace_Translate, Trace_PolText)'),
  "C01": ("sat-pipeline", "model_checking", "every satisfaction returned by get_satisfaction[_mall] and plan+satisfy, for every canonical well-typed B miniscript up to the node bound in 4 contexts / 5 wrappers and every relevant asset world, is alpha-abstracted and executed by the TLA+ Script VM under consensus+standardness rules of its output type; bounded-exhaustive", "5/C01",
          "TLA+ Script VM + Verify.tla judged by TLC on traces of the real satisfier (Trace_Sat); MC_SatSet lemma"),
  "C02": ("sat-pipeline", "model_checking", "every 'no satisfaction' answer over the same domain is confronted with the complete SatSet of MsSpec.tla (itself cross-checked against brute-force VM search by MC_SatSet)", "5/C02",
@@ -25,10 +25,10 @@ C = {
          "exhaustive bounded execution in the TLA+ Script VM of real encoded scripts vs. real type flags (Trace_TypeSound + MC_TypeSound lemma)"),
  "C07": ("ast-pipeline", "model_checking", "Eval(lift(ms), w) = (SatSet(ms, w) # {}) for every enumerated B miniscript and every relevant world", "5/C07",
          "TLA+ policy truth function vs. SatSet on the library's lift output (Trace_Ast)"),
- "C10": ("ast-pipeline", "model_checking", "parser-built AST = written AST, print->parse equality and print fixpoint for every enumerated miniscript in 4 contexts (descriptor/policy/key/checksum parts: not yet)", "5/C10",
-         "structural AST comparison in TLA+ of parse/print round trips (Trace_Ast)"),
- "C11": ("crash-pipeline", "exploration", "panic / hang observation on exhaustively enumerated small input spaces (strings, opcode sequences) and parametric extreme families for every parser, the decoder, the interpreter, the PSBT finalizer/updater and the planner; the expression parser's accept/reject verdict is compared with the explicit state machine ExprParser.tla (model-checked by MC_Expr); partial by nature (no byte-level fuzzing, no allocation tracking)", "5/C11",
-         "enumerated-input conformance under catch_unwind judged by TLC (Trace_Crash) + ExprParser.tla model (MC_Expr)"),
+ "C10": ('ast-pipeline', 'model_checking', 'miniscripts: parser-built AST = written AST, print->parse equality, print fixpoint, sugar; descriptors (22 output shapes x key-form tuples incl. origins, xpubs, wildcards, multipath): print->parse equality, fixpoint, checksum-less form, same script, public and secret key expressions round-trip; checksum: printed checksum recomputed by Checksum.tla (BIP380 in TLA+), EVERY single-character substitution and sampled 2- / in-group 3-,4-substitutions offered to verify_checksum and Descriptor::from_str and judged by ValidStr, library engine vs Checksum.tla on corrupted payloads, MC_Checksum lemma (BIP380 admits no valid string at those distances; exhaustive on short strings); policies: parser-built policy incl. odds, concrete and lifted semantic print->parse equality and fixpoint', '5/C10',
+         'TLA+ Checksum.tla (BIP380 polymod) model-checked by MC_Checksum and used by TLC to judge real corrupted descriptor strings (Trace_Cksum); structural AST / policy comparison in TLA+ of parse/print round trips (Trace_Ast, Trace_PolText)'),
+ "C11": ('crash-pipeline', 'exploration', "panic / hang observation on exhaustively enumerated small input spaces (strings, opcode sequences) and parametric extreme families for every parser, the decoder, the interpreter, the PSBT finalizer/updater and the planner; the expression parser's accept/reject verdict is compared with the ExprParser.tla model (MC_Expr); plus the witness space (every library witness and every single-element mutation through the interpreter) and taproot tree shapes / chains; thorough additionally runs the policy, desc, psbt, plan and compile pipelines and reports every panic they observe; allocation is not observed", '5/C11',
+         'enumerated-input conformance under catch_unwind judged by TLC (Trace_Crash, Trace_Interp, Trace_Tap, ...) + ExprParser.tla model (MC_Expr)'),
  "C12": ("ast-pipeline", "model_checking", "each validation switch rejects exactly the ASTs with the L1 defect (Validation.tla), parameter sets / parsers accept exactly ObeysContext / ObeysSane, limits exact w.r.t. published figures, lattice monotone, descriptor parsers and constructors accept only context-obeying scripts; over all enumerated typed and untyped ASTs in 4 contexts", "5/C12",
          "TLA+ Validation.tla defect predicates vs. library validate()/parsers/constructors (Trace_Ast)"),
  "C13": ("interp-pipeline", "model_checking", "every library satisfaction and every single-element mutation of it, under every lock/sequence environment, is run through the real interpreter with real signature checks and re-executed by the TLA+ VM under consensus rules: accept => VM accepts, constraint bag = VM executed-path log, constraints satisfy the lifted policy; completeness on sane descriptors", "5/C13",
@@ -48,9 +48,9 @@ C = {
 }
 ENG = {
  "compile-pipeline": ("bin/check (run_compile)", "TLC Gen_Compile -> msverif compile -> TLC Trace_Compile"),
- "crash-pipeline": ("bin/check (run_crash)", "TLC MC_Expr + Gen_Crash -> msverif crash -> TLC Trace_Crash"),
+ "crash-pipeline": ("bin/check (run_crash)", "TLC MC_Expr + Gen_Crash -> msverif crash -> TLC Trace_Crash; plus the interp and tap pipelines (thorough: policy, desc, psbt, plan, compile) for their C11 verdicts"),
  "desc-pipeline": ("bin/check (run_desc)", "TLC Gen_Desc -> msverif desc -> TLC Trace_Desc"),
- "translate-pipeline": ("bin/check (run_translate)", "TLC Gen_Ast -> msverif translate -> TLC Trace_Translate"),
+ "translate-pipeline": ("bin/check (run_translate)", "TLC Gen_Ast -> msverif translate -> TLC Trace_Translate; TLC Gen_Compile -> msverif poltext -> TLC Trace_PolText"),
  "tap-pipeline": ("bin/check (run_tap)", "TLC Gen_Tap -> msverif tap -> TLC Trace_Tap"),
  "psbt-pipeline": ("bin/check (run_psbt)", "TLC MC_Psbt + TLC Gen_Psbt -> msverif psbt (real PSBT replay) -> TLC Trace_Psbt"),
  "policy-pipeline": ("bin/check (run_policy)", "TLC Gen_Policy -> msverif policy -> TLC Trace_Policy"),
@@ -60,7 +60,7 @@ ENG = {
  "typesound-pipeline": ("bin/check (run_typesound)", "TLC Gen_Ast -> msverif ast -> TLC Trace_TypeSound + MC_TypeSound"),
  "pairs-pipeline": ("bin/pipe_generic.py", "TLC Gen_Pairs -> msverif pairs -> TLC Trace_Eq"),
  "sat-pipeline": ("bin/pipe_sat.py", "TLC Gen_Sat -> msverif sat (real library + alpha) -> TLC Trace_Sat + MC_SatSet"),
- "ast-pipeline": ("bin/pipe_ast.py", "TLC Gen_Ast -> msverif ast -> TLC Trace_Ast"),
+ "ast-pipeline": ("bin/pipe_ast.py", "TLC Gen_Ast -> msverif ast -> TLC Trace_Ast; for C10 also TLC MC_Checksum + Gen_Cksum -> msverif cksum -> TLC Trace_Cksum and Gen_Compile -> msverif poltext -> TLC Trace_PolText"),
  "types-pipeline": ("bin/pipe_types.py", "TLC Gen_Types -> msverif types -> TLC Trace_Types (+ MC_Reach)"),
 }
 NA = {}
